@@ -30,7 +30,7 @@ STATEFUL = ("pso", "cors", "halton", "rseq", "xgb", "rf", "gp", "best")
 @st.composite
 def cases(draw, max_enum):
     heavy_ok = draw(st.integers(0, 3)) == 0
-    cfg = draw(calib.config(kinds=gen.ALL_KINDS if heavy_ok else gen.CHEAP, max_d=3, max_len=5, max_bs=3))
+    cfg = draw(calib.config(kinds=gen.ALL_KINDS if heavy_ok else gen.CHEAP, max_d=3, max_len=5, max_bs=3, wide=not heavy_ok))
     for s in cfg["lineup"]:
         if s["kind"] == "gp":
             s["restarts"] = 0
@@ -75,11 +75,9 @@ def check_resume(ctx: Ctx, case):
         except Inconclusive:
             raise
         except Exception as e:  # noqa: BLE001
-            from harness.checks.c03 import third_party
-            if third_party(e):
-                raise Inconclusive(f"third-party {type(e).__name__} in the uninterrupted run") from e
-            with guard(ctx, "C05/exception", sub, case):
-                raise
+            # the uninterrupted run itself fails on this configuration (e.g. a loss option that yields NaN losses fed to a
+            # surrogate): nothing to compare a resumed run with
+            raise Inconclusive(f"the uninterrupted run raises {type(e).__name__}") from e
         h0 = calib.hist_snapshot(twin)
         for k, pat in enumerate(pats):
             one = dict(case, patterns=[pat])
